@@ -73,8 +73,13 @@ class Case:
 class Budget:
     """Keeps generated encodings small enough: the deeper, the smaller lists and buffers get."""
 
-    def __init__(self, big=False):
+    def __init__(self, big=False, rare=True):
         self.big = big
+        self.rare = rare
+
+    # lengths around powers of two: where honest off-by-one and width mistakes live; drawn rarely because they are costly
+    RARE_COUNTS = [9, 15, 16, 17, 31, 32, 33, 64, 65, 128]
+    RARE_SIZES = [15, 16, 17, 31, 33, 63, 65, 127, 128, 129, 255, 256, 257, 511, 512, 513, 1023, 1024, 1025]
 
     def counts(self, depth):
         if depth <= 2:
@@ -89,12 +94,24 @@ class Budget:
             base += [100, 255, 256, 300]
         return base
 
+    def rare_count(self, ch, depth, elem_cost):
+        """Occasionally (1 in 24 at shallow depth) a list length around a power of two; cheaper elements may get longer lists."""
+        if not self.rare or depth > 2 or not ch.chance(1, 24):
+            return None
+        opts = [c for c in self.RARE_COUNTS if c * elem_cost <= 2048]
+        return ch.choice(opts) if opts else None
+
+    def rare_size(self, ch, depth):
+        if not self.rare or depth > 3 or not ch.chance(1, 24):
+            return None
+        return ch.choice(self.RARE_SIZES)
+
 
 class Builder:
-    def __init__(self, layout, ch, big=False):
+    def __init__(self, layout, ch, big=False, rare=True):
         self.L = layout
         self.ch = ch
-        self.budget = Budget(big)
+        self.budget = Budget(big, rare)
         self.unions = []
         self.lists = []
         self.flags = set()
@@ -122,7 +139,19 @@ class Builder:
             return hi
         return ch.int(lo, hi)
 
-    def small_count(self, tname, depth):
+    def _elem_cost(self, elem):
+        """Rough byte cost of one list element (to keep long lists affordable)."""
+        L = self.L
+        k = L.kind(elem)
+        if k == "prim":
+            return L.width(elem)
+        return 24
+
+    def small_count(self, tname, depth, elem=None):
+        rare = self.budget.rare_count(self.ch, depth, self._elem_cost(elem) if elem else 8)
+        if rare is not None and self.L.contains(tname, rare):
+            self.flags.add("rare_list_length")
+            return rare
         opts = [c for c in self.budget.counts(depth) if self.L.contains(tname, c)]
         return self.ch.choice(opts) if opts else self.valid_value(tname)
 
@@ -181,7 +210,7 @@ class Builder:
                 elif fname in sel_fields:
                     v = ch.choice(self._selector_choices(tname, fname, ftype))
                 elif nxt is not None and list_elem(nxt):
-                    v = self.small_count(ftype, depth + 1)
+                    v = self.small_count(ftype, depth + 1, list_elem(nxt))
                 else:
                     v = self.valid_value(ftype)
                 toks.append([fpath, ftype, v])
@@ -213,7 +242,11 @@ class Builder:
         (size_name, size_type), (buf_name, buf_type) = L.struct(tname)["fields"]
         bpath = f"{path}.{buf_name}"
         if list_elem(buf_type):
-            n = ch.choice(self.budget.buf_sizes(depth))
+            n = self.budget.rare_size(ch, depth)
+            if n is not None and L.contains(size_type, n):
+                self.flags.add("rare_buffer_size")
+            else:
+                n = ch.choice(self.budget.buf_sizes(depth))
             inner = self.array(buf_type, bpath, depth + 1, n)
             self.flags.add("buffer0" if n == 0 else "buffer")
         elif not force_nonempty and ch.chance(3, 20):
@@ -330,11 +363,11 @@ def _n_sessions(ch, fixed):
 
 
 @st.composite
-def structures(draw, layout, tname=None, big=False, overrides=None):
+def structures(draw, layout, tname=None, big=False, overrides=None, rare=True):
     ch = HypChooser(draw)
     if tname is None:
         tname = ch.choice(layout.non_union_types())
-    b = Builder(layout, ch, big)
+    b = Builder(layout, ch, big, rare)
     if overrides:
         toks = b.struct(tname, "", 0, overrides=overrides)
     else:
@@ -343,18 +376,18 @@ def structures(draw, layout, tname=None, big=False, overrides=None):
 
 
 @st.composite
-def commands(draw, layout, cc_name=None, sessions="any", decrypt=None, big=False):
+def commands(draw, layout, cc_name=None, sessions="any", decrypt=None, big=False, rare=True):
     ch = HypChooser(draw)
     if cc_name is None:
         cc_name = ch.choice(sorted(layout.commands))
-    b = Builder(layout, ch, big)
+    b = Builder(layout, ch, big, rare)
     toks, meta = b.command(cc_name, _n_sessions(ch, sessions), want_decrypt=decrypt)
     meta.update(b.meta())
     return Case("Command", toks, layout, meta=meta)
 
 
 @st.composite
-def responses(draw, layout, cc_name=None, sessions="any", enc=None, failed=None, big=False):
+def responses(draw, layout, cc_name=None, sessions="any", enc=None, failed=None, big=False, rare=True):
     ch = HypChooser(draw)
     if cc_name is None:
         cc_name = ch.choice(sorted(layout.commands))
@@ -363,20 +396,20 @@ def responses(draw, layout, cc_name=None, sessions="any", enc=None, failed=None,
         failed = ch.chance(1, 6)
     if enc is None:
         enc = ch.bool()
-    b = Builder(layout, ch, big)
+    b = Builder(layout, ch, big, rare)
     toks, meta = b.response(cc_name, n, enc=enc, failed=failed)
     meta.update(b.meta())
     return Case("Response", toks, layout, cc=layout.commands[cc_name]["code"], enc=meta["encrypt"], meta=meta)
 
 
 @st.composite
-def streams(draw, layout, max_pairs=4, lone_tail=True, big=False):
+def streams(draw, layout, max_pairs=4, lone_tail=True, big=False, rare=True):
     ch = HypChooser(draw)
     n = ch.int(1, max_pairs)
     toks = []
     msgs = []
     names = sorted(layout.commands)
-    b = Builder(layout, ch, big)
+    b = Builder(layout, ch, big, rare)
     for i in range(n):
         cc_name = ch.choice(names)
         ns = _n_sessions(ch, "any")
